@@ -451,3 +451,269 @@ func batchLenGuarded(fn *ssa.Function, s ssa.Value, use ssa.Instruction) bool {
 	}
 	return false
 }
+
+// ---------------------------------------------------------------------------------------------
+
+func init() {
+	register(&Rule{ID: "R-VALIDEVERY", Min: 1, Run: ruleValidEvery,
+		Doc: "a per-step validation of a run-time parameter (a test of a float value inside the per-step loop whose failing branch returns an error, e.g. the k of topk) is passed on every path through an iteration: no fast path (continue) in front of it can skip a step, because the reference engine validates the parameter at every step whatever the operand holds"})
+
+	mutant(Mutant{Rule: "R-VALIDEVERY", Name: "empty-step-fast-path-before-validation", File: "execution/aggregate/khashaggregate.go",
+		Old:    "\t\t// Same parameter validation as in the Prometheus engine.\n",
+		New:    "\t\tif len(vector.Samples) == 0 {\n\t\t\tresult = append(result, a.vectorPool.GetStepVector(vector.T))\n\t\t\ta.next.GetPool().PutStepVector(vector)\n\t\t\tcontinue\n\t\t}\n\t\t// Same parameter validation as in the Prometheus engine.\n",
+		Expect: "kAggregate"})
+}
+
+func ruleValidEvery(p *core.Program) []core.Obligation {
+	const rule = "R-VALIDEVERY"
+	var obs []core.Obligation
+	errT := types.Universe.Lookup("error").Type()
+	for _, fn := range p.Funcs {
+		if fn.Pkg == nil || !hasPrefixRel(fn, "execution") {
+			continue
+		}
+		loops := core.LoopBodies(fn)
+		if len(loops) == 0 {
+			continue
+		}
+		k := 0
+		for _, b := range fn.Blocks {
+			iff := core.IfOf(b)
+			if iff == nil {
+				continue
+			}
+			cond, _ := core.StripNot(iff.Cond)
+			call, ok := cond.(*ssa.Call)
+			if !ok || len(call.Call.Args) != 1 || !isFloatType(call.Call.Args[0].Type()) {
+				continue
+			}
+			callee := call.Call.StaticCallee()
+			if callee == nil || !(p.InRepo(callee) || core.IsStatic(&call.Call, "math.IsNaN") || core.IsStatic(&call.Call, "math.IsInf")) {
+				continue
+			}
+			// one branch returns a non-nil error straight away
+			fails := false
+			for _, s := range b.Succs {
+				if len(s.Instrs) == 0 {
+					continue
+				}
+				for _, x := range s.Instrs {
+					ret, ok := x.(*ssa.Return)
+					if !ok {
+						continue
+					}
+					rs := core.RetResults(ret)
+					if len(rs) > 0 && types.Identical(rs[len(rs)-1].Type(), errT) && !core.IsNilConst(rs[len(rs)-1]) {
+						fails = true
+					}
+				}
+			}
+			if !fails {
+				continue
+			}
+			// the innermost loop around the test, and a loop-variant operand
+			var header *ssa.BasicBlock
+			var body map[*ssa.BasicBlock]bool
+			for h, bd := range loops {
+				if bd[b] && (body == nil || len(bd) < len(body)) {
+					header, body = h, bd
+				}
+			}
+			if body == nil {
+				continue
+			}
+			k++
+			key := fmt.Sprintf("%s validates %s at every step #%d", core.FuncName(fn), core.FuncName(callee), k)
+			// a path header -> ... -> header inside the loop that avoids b
+			seen := map[*ssa.BasicBlock]bool{header: true}
+			work := []*ssa.BasicBlock{header}
+			skipped := false
+			for len(work) > 0 && !skipped {
+				x := work[len(work)-1]
+				work = work[:len(work)-1]
+				for _, s := range x.Succs {
+					if !body[s] || s == b {
+						continue
+					}
+					if s == header {
+						skipped = true
+						break
+					}
+					if !seen[s] {
+						seen[s] = true
+						work = append(work, s)
+					}
+				}
+			}
+			if skipped {
+				obs = append(obs, core.Ob(rule, key, p.Pos(call.Pos()), core.FuncName(fn), core.Violated, "an iteration of the per-step loop can complete without passing the validation: at such a step an invalid parameter (NaN, out of range) is accepted silently where the reference engine fails the query"))
+			} else {
+				obs = append(obs, core.Ob(rule, key, p.Pos(call.Pos()), core.FuncName(fn), core.Held, "every path through an iteration passes the validation"))
+			}
+		}
+	}
+	return obs
+}
+
+func hasPrefixRel(fn *ssa.Function, prefix string) bool {
+	rel := core.Rel(fn.Pkg.Pkg.Path())
+	return len(rel) >= len(prefix) && rel[:len(prefix)] == prefix
+}
+
+// ---------------------------------------------------------------------------------------------
+
+func init() {
+	register(&Rule{ID: "R-MEMOKEY", Min: 2, Run: ruleMemoKey,
+		Doc: "every entry the selector pool memoises is keyed by everything it was built from: each parameter of the pool method that flows into the stored value (directly, or through another memoised entry it wraps) also flows into the key. Exempt: step (one step per query, and part of the hashed hints). Otherwise two different selects of one query collide and one of them reads the other's series"})
+
+	mutant(Mutant{Rule: "R-MEMOKEY", Name: "filtered-selector-memoised-by-filter-only", File: "execution/storage/pool.go",
+		Old:    "\treturn NewFilteredSelector(p.selectors[key], NewFilter(filters))\n",
+		New:    "\tfilterKey := hashMatchers(filters, mint, maxt, hints)\n\tif _, ok := p.selectors[filterKey]; !ok {\n\t\tp.selectors[filterKey] = &seriesSelector{storage: p.queryable, mint: mint, maxt: maxt, step: step, matchers: append(matchers[:len(matchers):len(matchers)], filters...), hints: hints}\n\t}\n\treturn NewFilteredSelector(p.selectors[key], NewFilter(filters))\n",
+		Expect: "GetFilteredSelector"})
+	mutant(Mutant{Rule: "R-MEMOKEY", Name: "selector-keyed-without-hints", File: "execution/storage/pool.go",
+		Old:    "func (p *SelectorPool) GetSelector(mint, maxt, step int64, matchers []*labels.Matcher, hints storage.SelectHints) SeriesSelector {\n\tkey := hashMatchers(matchers, mint, maxt, hints)",
+		New:    "func (p *SelectorPool) GetSelector(mint, maxt, step int64, matchers []*labels.Matcher, hints storage.SelectHints) SeriesSelector {\n\tkey := hashMatchers(matchers, mint, maxt, storage.SelectHints{})",
+		Expect: "GetSelector"})
+}
+
+func ruleMemoKey(p *core.Program) []core.Obligation {
+	const rule = "R-MEMOKEY"
+	var obs []core.Obligation
+	exempt := map[string]string{"step": "one step per query; also hashed as hints.Step"}
+	paramsOf := func(v ssa.Value) map[*ssa.Parameter]bool {
+		out := map[*ssa.Parameter]bool{}
+		core.BackSlice(v, func(x ssa.Value) bool {
+			if pp, ok := x.(*ssa.Parameter); ok {
+				out[pp] = true
+			}
+			// a composite literal: follow the stores into its fields
+			if a, ok := x.(*ssa.Alloc); ok {
+				for _, r := range core.Referrers(a) {
+					if fa, ok := r.(*ssa.FieldAddr); ok {
+						for _, rr := range core.Referrers(fa) {
+							if st, ok := rr.(*ssa.Store); ok && st.Addr == fa {
+								for q := range paramsOfShallow(st.Val) {
+									out[q] = true
+								}
+							}
+						}
+					}
+				}
+			}
+			return true
+		})
+		return out
+	}
+	for _, fn := range p.Funcs {
+		n := recvNamed(fn)
+		if n == nil || n.Obj().Name() != "SelectorPool" || n.Obj().Pkg().Path() != core.Module+"/execution/storage" {
+			continue
+		}
+		k := 0
+		core.EachInstr(fn, func(b *ssa.BasicBlock, i int, ins ssa.Instruction) {
+			mu, ok := ins.(*ssa.MapUpdate)
+			if !ok {
+				return
+			}
+			k++
+			key := fmt.Sprintf("%s memoises an entry #%d", core.FuncName(fn), k)
+			kp, vp := paramsOf(mu.Key), paramsOf(mu.Value)
+			var missing []string
+			for q := range vp {
+				if kp[q] || (len(fn.Params) > 0 && q == fn.Params[0]) {
+					continue
+				}
+				if _, ok := exempt[q.Name()]; ok {
+					continue
+				}
+				missing = append(missing, q.Name())
+			}
+			if len(missing) > 0 {
+				sortStrings(missing)
+				obs = append(obs, core.Ob(rule, key, p.Pos(mu.Pos()), core.FuncName(fn), core.Violated, fmt.Sprintf("the stored value depends on %v, the key does not: two calls that differ only there share one entry", missing)))
+			} else {
+				obs = append(obs, core.Ob(rule, key, p.Pos(mu.Pos()), core.FuncName(fn), core.Held, "every parameter the value is built from is part of the key"))
+			}
+		})
+	}
+	return obs
+}
+
+func paramsOfShallow(v ssa.Value) map[*ssa.Parameter]bool {
+	out := map[*ssa.Parameter]bool{}
+	core.BackSlice(v, func(x ssa.Value) bool {
+		if pp, ok := x.(*ssa.Parameter); ok {
+			out[pp] = true
+		}
+		return true
+	})
+	return out
+}
+
+func sortStrings(s []string) {
+	for i := 1; i < len(s); i++ {
+		for j := i; j > 0 && s[j] < s[j-1]; j-- {
+			s[j], s[j-1] = s[j-1], s[j]
+		}
+	}
+}
+
+// ---------------------------------------------------------------------------------------------
+
+func init() {
+	register(&Rule{ID: "R-MATCHPOS", Min: 3, Run: ruleMatchPos,
+		Doc: "a list of label matchers is a set: it is never accessed at a constant position (m[0], m[1:]). Which matcher comes first depends on how the query was written and on whether the sorting optimizer ran, and a selector need not have a metric-name matcher at all; matchers are found by name"})
+
+	mutant(Mutant{Rule: "R-MATCHPOS", Name: "name-matcher-assumed-first", File: "logicalplan/merge_selects.go",
+		Old:    "\t\t\tfilters := make([]*labels.Matcher, len(e.LabelMatchers))\n\t\t\tcopy(filters, e.LabelMatchers)\n",
+		New:    "\t\t\tfilters := make([]*labels.Matcher, len(e.LabelMatchers)-1)\n\t\t\tcopy(filters, e.LabelMatchers[1:])\n",
+		Expect: "replaceMatchers"})
+}
+
+func ruleMatchPos(p *core.Program) []core.Obligation {
+	const rule = "R-MATCHPOS"
+	var obs []core.Obligation
+	for _, fn := range p.Funcs {
+		k := 0
+		core.EachInstr(fn, func(b *ssa.BasicBlock, i int, ins ssa.Instruction) {
+			var bad string
+			switch x := ins.(type) {
+			case *ssa.IndexAddr:
+				if !isMatcherSlice(x.X.Type()) {
+					return
+				}
+				// a freshly made slice that is being filled is not a matcher list yet
+				if _, isMake := x.X.(*ssa.MakeSlice); isMake {
+					return
+				}
+				if _, ok := core.ConstInt(x.Index); ok {
+					bad = "indexed at a constant position"
+				}
+			case *ssa.Slice:
+				if !isMatcherSlice(x.X.Type()) {
+					return
+				}
+				if x.Low != nil {
+					if c, ok := core.ConstInt(x.Low); ok && c != 0 {
+						bad = "sliced from a constant position"
+					}
+				}
+				if x.High != nil {
+					if c, ok := core.ConstInt(x.High); ok && c != 0 {
+						bad = "cut at a constant position"
+					}
+				}
+			default:
+				return
+			}
+			k++
+			key := fmt.Sprintf("%s accesses a matcher list #%d", core.FuncName(fn), k)
+			if bad != "" {
+				obs = append(obs, core.Ob(rule, key, p.Pos(ins.Pos()), core.FuncName(fn), core.Violated, "the matcher list is "+bad+": the matcher found there depends on the order the query was written in (and is absent for selectors without it)"))
+			} else {
+				obs = append(obs, core.Ob(rule, key, p.Pos(ins.Pos()), core.FuncName(fn), core.Held, "position comes from a loop over the list"))
+			}
+		})
+	}
+	return obs
+}
